@@ -132,3 +132,10 @@ def gnn_validation(args):
     if len(la) != len(lb) or not np.allclose(la, lb, rtol=1e-9, atol=1e-12):
         out['diff'].append(['history_', 'value', 'loss history %d / %d entries' % (len(la), len(lb))])
     return out
+
+
+def toy(a):
+    """COO triples of a toy (bi)graph of sknetwork.data (used as a fixed, structure-rich input)."""
+    from sknetwork import data
+    m = sparse.coo_matrix(getattr(data, a['name'])())
+    return {'shape': list(m.shape), 'coo': [[int(i), int(j), float(v)] for i, j, v in zip(m.row, m.col, m.data)]}
